@@ -405,7 +405,7 @@ class Shadow:
 
     def op_storage_begin_failure(self, limited):
         """over-long transaction metadata: a storage that limits it rejects the transaction in its tpc_begin"""
-        if not (self.work or self.added or self.layers):
+        if not (self.work or self.added or any(L['states'] for L in self.layers)):
             # make sure the connection takes part in the transaction: change the root
             tgt = self.fresh()
             self.uid += 1
